@@ -5,8 +5,16 @@
   Options are functions on two fields (directories, auto-refresh); `configure`
   applies them, drops the old watch completely (watcher closed: its descriptors,
   kernel watches and both goroutines go away) and, if auto-refresh is on, sets up
-  a new one for the directories that exist — unless no descriptor can be had, in
-  which case the cache keeps a nil watcher and every query rescans.
+  a new one for the directories that exist — unless the descriptors for it cannot
+  be had, in which case the cache keeps a nil watcher and every query rescans.
+  Then it scans the directories; a scan that cannot open a directory (no free
+  descriptor) leaves the cache stale, reports the directory and — on the repaired
+  tree — marks the cache for a rescan at the next query.
+
+  Descriptors are accounted physically: the environment offers `free` slots in
+  the descriptor table besides what the cache itself holds; a watcher occupies
+  `watcherCost` of them (inotify, epoll, wake-up pipe); listing a directory needs
+  one, transiently.
 -/
 import CdiModel.Path
 namespace Cdi.Configure
@@ -31,13 +39,17 @@ def applyOpt (f : Fields) : Opt → Fields
 
 def applyOpts (f : Fields) (os : List Opt) : Fields := os.foldl applyOpt f
 
-/-- what the environment allows at the moment of a (re)configuration -/
+/-- descriptors one fsnotify watcher occupies (validated by the reconf stream: inotify
+descriptor, epoll descriptor, the two ends of the wake-up pipe) -/
+def watcherCost : Nat := 4
+
+/-- what the environment allows at the moment of a (re)configuration or query -/
 structure Env where
   dirExists : Str → Bool
-  descriptorsAvailable : Bool
+  free : Nat                 -- free descriptor slots, not counting what the cache holds
 
 structure Resources where
-  watchers : Nat      -- fsnotify watchers (each: an inotify descriptor and its reader goroutine)
+  watchers : Nat      -- fsnotify watchers (each: `watcherCost` descriptors and a reader goroutine)
   goroutines : Nat    -- the cache's own watch goroutines
   watches : Nat       -- kernel watches
   deriving Repr, DecidableEq
@@ -47,36 +59,59 @@ structure CState where
   watcherLive : Bool
   tracked : List Str     -- directories with a kernel watch
   res : Resources
+  stale : Bool           -- the last scan could not list the directories
+  rescan : Bool          -- the next query refreshes again
   deriving Repr, DecidableEq
 
 def dedupStr : List Str → List Str
   | [] => []
   | x :: rest => if rest.contains x then dedupStr rest else x :: dedupStr rest
 
-/-- `(*Cache).configure(options...)` -/
-def configure (env : Env) (s : CState) (os : List Opt) : CState :=
+/-- descriptors the cache holds -/
+def held (s : CState) : Nat := if s.watcherLive then watcherCost else 0
+
+/-- `(*Cache).configure(options...)`; `retry` = the repaired behaviour (a failed directory
+listing is retried by the next query) -/
+def configureWith (retry : Bool) (env : Env) (s : CState) (os : List Opt) : CState :=
   let f := applyOpts s.fields os
   -- watch.stop() released whatever the old watch held
-  if f.auto then
-    if env.descriptorsAvailable then
-      let tracked := (dedupStr f.dirs).filter env.dirExists
-      { fields := f, watcherLive := true, tracked := tracked, res := ⟨1, 1, tracked.length⟩ }
-    else { fields := f, watcherLive := false, tracked := [], res := ⟨0, 0, 0⟩ }
-  else { fields := f, watcherLive := false, tracked := [], res := ⟨0, 0, 0⟩ }
+  let avail := env.free + held s
+  if f.auto && decide (watcherCost ≤ avail) then
+    let tracked := (dedupStr f.dirs).filter env.dirExists
+    let scanOK := decide (1 ≤ avail - watcherCost)
+    { fields := f, watcherLive := true, tracked := tracked, res := ⟨1, 1, tracked.length⟩, stale := !scanOK, rescan := retry && !scanOK }
+  else
+    let scanOK := decide (1 ≤ avail)
+    { fields := f, watcherLive := false, tracked := [], res := ⟨0, 0, 0⟩, stale := !scanOK, rescan := retry && !scanOK }
+
+def configure := configureWith true
+def configurePinned := configureWith false
 
 /-- `(*Cache).Configure(options...)`: no options, no change -/
 def Configure (env : Env) (s : CState) (os : List Opt) : CState :=
   if os = [] then s else configure env s os
 
 /-- the state before the first configure inside `newCache` -/
-def blank : CState := ⟨defaults, false, [], ⟨0, 0, 0⟩⟩
+def blank : CState := ⟨defaults, false, [], ⟨0, 0, 0⟩, false, false⟩
 
 /-- `NewCache(options...)` -/
 def newCache (env : Env) (os : List Opt) : CState := configure env blank os
 
-/-- does a query rescan the directories unconditionally? (manual mode: never by itself;
-auto mode with a nil watcher: always) -/
-def queryAlwaysRefreshes (s : CState) : Bool := s.fields.auto && !s.watcherLive
+/-- does a query rescan the directories before answering? manual mode: never by itself;
+auto mode: with a nil watcher always, and when the last listing failed -/
+def queryRefreshes (s : CState) : Bool := s.fields.auto && (!s.watcherLive || s.rescan)
+
+/-- a query: `refreshIfRequired` -/
+def query (env : Env) (s : CState) : CState :=
+  if queryRefreshes s then
+    let scanOK := decide (1 ≤ env.free)
+    { s with stale := !scanOK, rescan := !scanOK }
+  else s
+
+/-- an explicit `Refresh()` -/
+def refresh (env : Env) (s : CState) : CState :=
+  let scanOK := decide (1 ≤ env.free)
+  { s with stale := !scanOK, rescan := !scanOK }
 
 /-- the package-level default cache: `cdi.Configure(options...)` creates it with the options on
 first use and reconfigures it afterwards -/
